@@ -224,6 +224,31 @@ fn fixed_probes(rep: &mut Report) {
     }
 }
 
+
+/// Methods that write their output, in every return shape the gate admits (`()`, `Result<(), E>`, `Option<()>`), on
+/// every kind of receiver: the C prototype has as many parameters as the function the proc macro exports (the write
+/// buffer last), whatever the return shape.  (The random modules seldom draw `Option<()>` together with a writer.)
+fn write_param_probe(rep: &mut Report) {
+    let src = "#[diplomat::bridge]\nmod ffi {\n    use diplomat_runtime::DiplomatWrite;\n    #[diplomat::opaque]\n    pub struct Gauge(u8);\n    pub struct Pt { pub x: i32 }\n    pub enum Lvl { A, B }\n    impl Gauge {\n        pub fn describe(&self, w: &mut DiplomatWrite) { let _ = w; }\n        pub fn describe_checked(&self, limit: u8, w: &mut DiplomatWrite) -> Result<(), ()> { let _ = (limit, w); Ok(()) }\n        pub fn describe_code(&self, w: &mut DiplomatWrite) -> Result<(), u8> { let _ = w; Ok(()) }\n        pub fn describe_nonneg(&self, w: &mut DiplomatWrite) -> Option<()> { let _ = w; None }\n        pub fn plain(&self) -> Option<()> { None }\n    }\n    impl Pt {\n        pub fn show(self, w: &mut DiplomatWrite) -> Option<()> { let _ = w; None }\n    }\n    impl Lvl {\n        pub fn name(self, w: &mut DiplomatWrite) -> Result<(), ()> { let _ = w; Ok(()) }\n    }\n}\n".to_string();
+    let case = "(c01 probe write-parameters)";
+    rep.oracle_runs += 1;
+    rep.count("probe:write-parameters");
+    let ex = crate::expand::expand_each(&[src.clone()]);
+    let x = match &ex[0] { Ok(x) => x, Err(e) => { rep.oracle_fail(case, "the write-parameter probe does not build with the real proc macro", json!({"rustc": e})); return; } };
+    let o = tool::run_backend(&src, "c");
+    if !o.ok() { rep.oracle_fail(case, "the C backend does not generate the write-parameter probe", json!({"status": o.status()})); return; }
+    for f in ["Gauge_describe", "Gauge_describe_checked", "Gauge_describe_code", "Gauge_describe_nonneg", "Gauge_plain", "Pt_show", "Lvl_name"] {
+        let Some(rf) = x.extern_fns.iter().find(|e| e.name == f) else { rep.oracle_fail(case, "a method is missing from the expansion", json!({"function": f})); continue };
+        let header: String = o.files.iter().filter(|(k, _)| k.ends_with(".h")).map(|(_, v)| v.as_str()).collect::<Vec<_>>().join("\n");
+        let Some(cp) = crate::e2e::declared_param_types(&header, f) else { rep.oracle_fail(case, "a method is missing from the C headers", json!({"function": f})); continue };
+        let rust_has_write = rf.params.last().map(|p| p.1.contains("DiplomatWrite")).unwrap_or(false);
+        let c_has_write = cp.last().map(|p| p.contains("DiplomatWrite")).unwrap_or(false);
+        if rf.params.len() != cp.len() || rust_has_write != c_has_write {
+            rep.oracle_fail(case, "the C prototype does not have the parameters of the exported function", json!({"function": f, "exported": rf.params.iter().map(|p| p.1.clone()).collect::<Vec<_>>(), "c_prototype": cp, "source": src}));
+        }
+    }
+}
+
 pub fn main(args: &[String]) {
     let a = util::parse_args(args);
     let mut rep = Report::new("C01");
@@ -272,5 +297,6 @@ pub fn main(args: &[String]) {
     // the project's own C program (example/c/main.c) against regenerated headers; symbols of both bridges
     crate::repo_tests::native_tests(&mut rep, false, true);
     crate::repo_tests::symbols(&mut rep);
+    write_param_probe(&mut rep);
     rep.print();
 }
